@@ -97,7 +97,9 @@ def fragS (tbl : List Gen.Entry) : Structure → Bool
   | .listS items => fragLL tbl items
   | .fnCall _ => true
   | .fnDef _ _ body => fragL tbl body
-  | _ => false
+  | .mon _ a => fragS tbl a
+  | .dy _ a b => fragS tbl a && fragS tbl b
+  | .tri _ _ _ _ => true     -- (no triadic modifier exists: the reference semantics gives such a structure no meaning)
 def fragL (tbl : List Gen.Entry) : List Structure → Bool
   | [] => true
   | s :: r => fragS tbl s && fragL tbl r
